@@ -17,14 +17,17 @@ CLAIMED = {
  "C05": dict(
    text="Proof: the mean mass P2/P1 of a star bin truncated at the turn-off mass lies strictly between the lower edge and min(upper edge, turn-off mass) for every slope; the remnant "
         "flux lies in the cone of its bin (lower*dNr <= dMr <= upper*dNr) and goes to the predicted class only; escape is radial for remnants (C03), kicks and ejection preserve "
-        "bin means (C15, C07, C08). Validated on every run (the solver is not modelled; cone invariance is not a property of DOPRI5's negative weight): full constructions with "
+        "bin means (C15, C07, C08); along the EXACT solution of the modelled equations (deposit in the bin's cone + escape at a common factor for number and mass) a remnant bin's "
+        "mean mass never leaves [lower, upper] (integrating-factor argument, C05c). Validated on every run (the solver is not modelled; cone invariance is not a property of "
+        "DOPRI5's negative weight): full constructions, including ages just after a bin edge turns off, with "
         "escape on both sides of core collapse, kicks, partial retention and BH targets - every populated bin's mean against its edges, NS bins at exactly the NS mass, empty "
         "remnant bins at their centre.",
    design="8/C05", technique="Coq proofs of the cone/mean invariants at field level + validation of per-row means on full runs",
    note="Trusted: Coq kernel; Reals axioms; per-row statements hold for the exact solution / Euler steps, measured (not proved) for dopri5; harness + fullrun.py."),
  "C04": dict(
    text="PARTIAL. Proved: the filtered summary views are consistent for ANY last row (M, N, m, types have length nms+nmr; exactly the bins with N > 10 Nmin, NaN counted as absent; "
-        "star bins first then remnants in stored order; m = M/N), tied to the implementation by running the real property getters on injected multi-row arrays (exact). "
+        "star bins first then remnants in stored order; m = M/N), tied to the implementation by running the real property getters on injected multi-row arrays (exact); and along the "
+        "EXACT solution of the modelled equations every count and mass stays non-negative and an empty star bin stays empty (each component obeys g' = c(t) g + h(t), h >= 0). "
         "Explored, not proved (the Fortran solver, its evaluation points and first trial step are not modelled): random valid configurations over the documented domain for both model "
         "classes in parallel, every public array inspected for finiteness / sign, exceptions classified by call site against the listed findings.",
    design="8/C04", technique="Coq proof of view consistency + exact getter correspondence + classified random exploration of full constructions",
